@@ -165,6 +165,15 @@ def r3(ctx, rep):
     rep.check(ok, "C13-R3", "shorthand-name", where, "`.name` -> Segment::name(text)", "`.name` builds `%s`" % b)
     gp = prog.impl_method(QT, VAL, "get")
     gt = ev.summary(gp)
+
+    def factor(t):
+        """if(c, f(s, x), REST) with every leaf a call f(s, _)  ->  f(s, if(c, x, rest'))   (early returns written out)"""
+        if t.k == "if":
+            a_, b_ = factor(t.a[1]), factor(t.a[2])
+            if a_.k == "call" and b_.k == "call" and a_.a[0] == b_.a[0] and len(a_.a) == 3 and len(b_.a) == 3 and a_.a[1] == b_.a[1]:
+                return Tm("call", (a_.a[0], a_.a[1], Tm("if", (t.a[0], a_.a[2], b_.a[2]))), t.n)
+        return t
+    gt = factor(gt)
     key = Tm("param", (1, "key"))
     branches = {}
     cur = gt.a[2] if gt.k == "call" and gt.a[0] == VAL + "::get" and len(gt.a) == 3 else None
@@ -218,7 +227,14 @@ def r3(ctx, rep):
         nt = ev.summary(pn)
         ok = False
         if nt.k == "if":
-            lits = sorted(y.a[2].a[1] for y in subterms(nt.a[0]) if y.k == "call" and y.a[0].endswith("<impl str>::contains") and y.a[2].k == "lit")
+            lits = []
+            for y in subterms(nt.a[0]):
+                if y.k == "call" and y.a[0].endswith("<impl str>::contains") and len(y.a) == 3:
+                    if y.a[2].k == "lit":
+                        lits.append(y.a[2].a[1])
+                    elif y.a[2].k == "array" and all(z.k == "lit" for z in y.a[2].a):
+                        lits.extend(z.a[1] for z in y.a[2].a)      # contains(['.', 'e', 'E']): any of the characters
+            lits = sorted(lits)
             fl = any(x.k == "adt" and x.a[1] == "Float" for x in subterms(nt.a[1]))
             it = any(x.k == "adt" and x.a[1] == "Int" for x in subterms(nt.a[2]))
             ok = lits == [".", "E", "e"] and fl and it
